@@ -53,7 +53,7 @@ CHECKS = {
    note="Records that are exactly an escape object are excluded (inherently ambiguous in Cedar JSON)." + TB),
  "C14": dict(cat=E, ref="5/C14", tech="repetition monitor: R-fold re-execution (each Go map range is a fresh schedule), fresh re-parses and shuffled insertion orders; the number of distinct outputs must be 1",
    text="Decision, reason set, error set with messages and all marshalled bytes are compared across R=24/64 repetitions, re-decodings and insertion orders for inputs biased to where map order can leak.",
-   note="P(miss) of a 2-way order leak <= 2^-23 per input." + TB),
+   note="A single case misses a 2-way map-order leak with probability (7/8)^(R-1) (about 4.6% at R=24, 2e-4 at R=64: Go starts iterating a small map at a random slot of an 8-slot bucket); every leak class is exercised by hundreds of cases per run." + TB),
  "C15": dict(cat=E, ref="5/C15", tech="soundness monitor: validator verdict vs observed evaluation error class (sentinel hook) on by-construction schema-conforming requests and stores, with single-step type-breaking mutations",
    text="For generated schemas and policies the validator accepts (strict and permissive), evaluation on schema-conforming data never fails with type / unknown-function / arity / missing attribute-or-tag errors.",
    note="Conforming data are additionally accepted by validator.Entities/Request; disagreement there is inconclusive." + TB),
